@@ -78,6 +78,18 @@ CHECKS = {
    technique="reference pending-ACK list + socket close counter + returned-data snapshots over seeded operation histories against a simulated kernel, executed under the race detector with concurrent Close",
    text="A reference list of outstanding NoWait requests decides, for each WaitForPendingACKs call, how many ACK datagrams it must consume (up to and including the first failing one), what it returns, and that it never waits on an empty socket; Close from 1-8 goroutines plus later calls must close the socket exactly once and send exactly one PID-clearing AUDIT_SET iff SetPID was used, without waiting; rule slices from GetRules are compared with snapshots after all later traffic. Found and guards the pendingAcks defect (repaired); one known finding (WaitForReply command with NoWait ACKs outstanding).",
    note="Trusted base: simulated kernel (in-order ACKs, one reused receive buffer), the reference list, Go race detector."),
+ "C18": dict(engine="nlreal", cat="exploration", ref="§5 C18",
+   technique="the live kernel's verbatim echo of rejected NETLINK_ROUTE requests as framing oracle; porcupine linearizability check of the recorded Send history against a fetch-and-increment model; spoofed datagrams from a second netlink socket; guard-page inputs for the audit message parser; all under the race detector (ASan in thorough)",
+   text="What Send really put on the wire is read back from the kernel's NLMSG_ERROR echo (length, type, flags, port id, sequence, payload) for payload lengths 0..8970 and arbitrary flags/types outside the live rtnetlink range; concurrent Send histories {call, return, value} must be linearizable as a counter; datagrams of every length 0..64 (and longer, ACK-shaped) from a non-kernel sender must yield an error and no message while a later kernel reply is still received; AuditClient.Receive must reject < 16 bytes and otherwise return the header type and everything after 16 bytes, never reading past the input.",
+   note="Trusted base: the running kernel's netlink_ack/echo behaviour and user-to-user delivery for root (verified on this image; inconclusive if sockets cannot be opened), porcupine v1.3.0."),
+ "C09": dict(engine="logenc", cat="exploration", ref="§5 C09",
+   technique="unique-value retention oracle over the JSON-flattened event + file-summary mirror oracle, generated events and an exhaustive st_mode sweep",
+   text="Events are generated with a unique value in every field, so 'is this record's key/value somewhere in the event' is decided by equality against the leaves of the JSON-flattened event; a missing value is excused only by a warning that names that key or record type. Identity must be the first record's; groups without records or without SYSCALL must give (nil, error). For all 65536 st_mode values the file summary must mirror the selected PATH (name, inode, device, owner ids, mode & 07777) and the object type must agree with the S_IFMT bits - the latter is a known finding (every non-regular type is reported as 'file'; golden files pin it).",
+   note="Trusted base: the event generator and kernel-style writer; Data() of a fresh parse as the per-record reference (its own correctness is C12)."),
+ "C15": dict(engine="logenc", cat="exploration", ref="§5 C15",
+   technique="before/after snapshot monitors over operation histories on a pool of events (inputs intact, repeatable, isolated) + concurrent coalesce/resolve under the race detector compared with a sequential reference",
+   text="Deep copies of Data/Tags/ToMapStr of every input message taken before first use are compared after every CoalesceMessages/ResolveIDs; a repeated coalesce must give an equal event; every event returned so far is compared with its own snapshot after every later operation; 16 goroutines coalesce and resolve different groups under -race and must match the sequential reference. Found and guards the input-mutation defect (repaired).",
+   note="Trusted base: snapshot/compare code; warning order is deliberately not asserted (map iteration)."),
 }
 
 NOT_YET = {
@@ -124,6 +136,8 @@ def main():
              "kind_free_text": "exhaustive table enumerator"},
             {"name": "simkernel", "path": "/verif/harness/internal/simkernel", "serves_properties": ["C08","C16","C17","C18"],
              "kind_free_text": "scriptable simulated kernel + transport behind libaudit.NetlinkSendReceiver with one reused receive buffer and full call log"},
+            {"name": "nlreal", "path": "/verif/harness/internal/checks/c18.go", "serves_properties": ["C18"],
+             "kind_free_text": "real AF_NETLINK experiments against the running kernel (echo, spoofing, concurrent senders)"},
             {"name": "reasm", "path": "/verif/harness/internal/reasm", "serves_properties": ["C01","C02","C03","C10","C19"],
              "kind_free_text": "history generator + recording Stream + trace oracles over the real Reassembler"},
         ],
